@@ -162,9 +162,11 @@ def eEpisode : Nat := 0      -- episode_counter
 def eConfig : Nat := 1       -- the scheduler's scenario (constant part)
 def eNmneCfg : Nat := 2      -- the scenario's nmne_config (as a number)
 def eIo : Nat := 3           -- io settings
-def eUsesRng : Nat := 4      -- 1 iff the scenario has scripted agents / red applications that draw from the global generators
+def eUsesRng : Nat := 4      -- 1 iff the scenario has scripted agents / red applications that draw from the global generators in `step`
 def eScheduled : Nat := 5    -- 1 iff the scheduler hands out a different scenario per episode
 def eNmneVar : Nat := 6      -- 1 iff the scheduled scenarios differ in their nmne_config (then it is a function of the episode)
+def eBuildRng : Nat := 7     -- 1 iff `from_config` draws from the global generators: ANY scripted agent (start step / start node of periodic
+                             -- and TAP agents; a probabilistic agent draws the seed of its private generator from numpy's global one)
 /-- game attributes -/
 def lState : Nat := 0        -- simulation state digest
 def lStep : Nat := 1         -- step counter
@@ -186,8 +188,8 @@ def buildGame : List Cmd :=
     .setLoc lState (.add scenarioExpr (.glob gImport)),
     .setLoc lStep (.lit 0),
     -- scripted agents draw their start step / start node / private generator seed
-    .setLoc lState (.add (.loc lState) (.ite (.env eUsesRng) (.glob gRng) (.lit 0))),
-    .setGlob gRng (.ite (.env eUsesRng) (.lcg (.glob gRng)) (.glob gRng)),
+    .setLoc lState (.add (.loc lState) (.ite (.env eBuildRng) (.glob gRng) (.lit 0))),
+    .setGlob gRng (.ite (.env eBuildRng) (.lcg (.glob gRng)) (.glob gRng)),
     -- the first observation reads the capture flag just written
     .emit (.add (.loc lState) (.glob gCapture)) ]
 
@@ -309,10 +311,10 @@ def refClass (g : Nat) : GClass :=
   else if g = gPcapLoggers then .sinkOnly
   else .importOnly
 
-def initInst (cfg nmne io : Val) (usesRng : Val := 1) (scheduled : Val := 0) (nmneVar : Val := 0) : Inst :=
+def initInst (cfg nmne io : Val) (usesRng : Val := 1) (scheduled : Val := 0) (nmneVar : Val := 0) (buildRng : Val := usesRng) : Inst :=
   { env := fun x => if x = eConfig then cfg else if x = eNmneCfg then nmne else if x = eIo then io
                     else if x = eUsesRng then usesRng else if x = eScheduled then scheduled
-                    else if x = eNmneVar then nmneVar else 0,
+                    else if x = eNmneVar then nmneVar else if x = eBuildRng then buildRng else 0,
     loc := fun _ => 0 }
 
 end Primaite.Isolation
